@@ -9,7 +9,7 @@ Request: `<op> <rep> <flags> <path> <data>` (tab separated)
 * flags: the deviation flags that are on, one letter each (`-` = none):
   `e` innerEmptySlice, `s` descentSiblings, `n` locNegEnd, `c` locStartClamp, `y` locEmptyArray, `o` locateRoot, `w` walkDescentNoSelf, `u` nodesUnionNil,
   `r` nodesFilterRev, `l` firstNodeLast, `z` nodesFilterNull, `m` typedMapWild, `t` typedObjFilter, `f` firstTypedSlice,
-  `g` firstTypedWildOne, `h` hasTypedMap, `d` hasTypedDescent, `a` walkTypedArray; `P` = the pinned configuration
+  `g` firstTypedWildOne, `h` hasTypedMap, `d` hasTypedDescent, `a` walkTypedArray; `P` = the pinned configuration (op `pinned` answers its letters)
 * path: fragments separated by `/` (`-` = the empty path): `c:<hex key>`, `n:<int>`, `w`, `d`,
   `u:<member>,…` with members `k<hex>` / `i<int>`, `s:<start>:<end>:<step>` (`_` = absent),
   `f:<canonical value>|…` = a filter whose script is true exactly on the listed values
@@ -193,7 +193,16 @@ def answer (op : String) (cfg : Cfg) (rep : Rep) (x : List Frag) (d : JV) : Stri
   else if op = "firstnode" then renderOpt (firstNodeM cfg x d)
   else "bad-op"
 
+/-- the letters of the flags that are on -/
+def cfgLetters (c : Cfg) : String :=
+  String.ofList ([('e', c.innerEmptySlice), ('s', c.descentSiblings), ('n', c.locNegEnd), ('c', c.locStartClamp),
+    ('y', c.locEmptyArray), ('o', c.locateRoot), ('w', c.walkDescentNoSelf), ('u', c.nodesUnionNil),
+    ('r', c.nodesFilterRev), ('l', c.firstNodeLast), ('z', c.nodesFilterNull), ('m', c.typedMapWild),
+    ('t', c.typedObjFilter), ('f', c.firstTypedSlice), ('g', c.firstTypedWildOne), ('h', c.hasTypedMap),
+    ('d', c.hasTypedDescent), ('a', c.walkTypedArray)].filter (·.2) |>.map (·.1))
+
 def handle : List String → String
+  | ["pinned"] => cfgLetters Cfg.pinned    -- the harness asks which deviations the model of the current code has
   | [op, rep, flags, path, data] =>
     match parseRep rep, parseCfg flags, parsePath path, parseJV data with
     | some rep, some cfg, some x, some d => answer op cfg rep x d
